@@ -78,10 +78,32 @@ def handle (st : DState) (line : String) : DState × String :=
           match xdoc with
           | .list (.atom "xdoc" :: top) =>
             match decXNodes top with
-            | some nodes => (st, s!"same={b (a == real)} wf={b (wfb real)} specok={b (Spec.describe real == Xml.dataModel nodes)}")
+            | some nodes => (st, s!"same={b (a == real)} wf={b (wfb real)} specok={b (Spec.describe real == Xml.dataModel nodes)} tokok={b (Xml.docTokens nodes == ts)}")
             | none => (st, "bad-xdoc")
           | _ => (st, s!"same={b (a == real)} wf={b (wfb real)}")
   | some (.list [.atom "fuzz"]) => (st, "ok")
+  | some (.list [.atom "clic", .list [.atom "flags", .atom a, .atom m, .atom n, .atom r, ft], .list (.atom "args" :: args), out]) =>
+    match args.mapM decFTree, decStrS ft, decStrS out with
+    | some ts, some fty, some o =>
+      let f : Cli.Flags := { printAll := a == "1", asXml := m == "1", suppressNames := n == "1", recursive := r == "1", fileType := fty }
+      let blocks := (Cli.processed f ts).map (fun pr => Cli.block f pr.1 pr.2)
+      (st, s!"permok={if Cli.isBlockPerm (blocks.length + 2) o blocks then 1 else 0}")
+    | _, _, _ => (st, "bad-clic")
+  | some (.list [.atom "cli", .list [.atom "flags", .atom a, .atom m, .atom n, .atom r, ft], .list (.atom "args" :: args)]) =>
+    match args.mapM decFTree, decStrS ft with
+    | some ts, some fty =>
+      let f : Cli.Flags := { printAll := a == "1", asXml := m == "1", suppressNames := n == "1", recursive := r == "1", fileType := fty }
+      (st, "out=" ++ encStr (Cli.stdout f ts))
+    | _, _ => (st, "bad-cli")
+  | some (.list [.atom "unm", .atom id, env, res, tgt]) =>
+    match findDoc st id, decEnv env, decVal res, decTarget tgt with
+    | some a, some en, some r, some t =>
+      let out (sem : Sem) (run : Nat → Expr → Except Err Val) : String :=
+        match Unm.unmarshal run (sem.sv a) t r with
+        | .ok v => "ok " ++ encGoVal v
+        | .error _ => "err"
+      (st, s!"model={out Model.sem (fun n e => Model.run a en n e)} spec={out Spec.sem (fun n e => Spec.run a en n e)} speckf={out Spec.semKF (fun n e => Spec.runKF a en n e)}")
+    | _, _, _, _ => (st, "bad-unm")
   | some (.list [.atom "storemodel", .list (.atom "evs" :: evs)]) =>
     match evs.mapM decEv with
     | some es => (st, s!"arena={encArena (Store.build es)}")
